@@ -25,6 +25,10 @@ def scenarios(pid, thorough):
                         for when in (whens if threads else ['now']):
                             out.append(dict(kind='close_join', threads=threads, procs=procs, quota=quota,
                                             mix=mix, when=when, njobs=4 if not thorough else 6, dur=0.05))
+        for procs in (1, 2):
+            for mix in (['dying'], ['apply', 'dying']):
+                out.append(dict(kind='close_join', threads=True, procs=procs, quota=0, mix=mix, when='now',
+                                njobs=2, dur=0.05))
     else:
         for threads in (True, False):
             for procs in ((1, 2, 3) if thorough else (1, 2)):
